@@ -209,6 +209,15 @@ func runC14(c *fw.Case) {
 		return
 	}
 	meta.Apply(sh)
+	if rng.Intn(5) == 0 {
+		if up, op := model.UpperCaseEnum(rng, qf, sh, meta); op != "" {
+			if sh2, e := model.ObserveGuard(up); e == nil {
+				qf, sh = up, sh2
+				meta.Apply(sh)
+				c.Count("frames_with_uppercased_enum", 1)
+			}
+		}
+	}
 	var doc []byte
 	c.DescribeLazy(func() interface{} {
 		d := sh.Describe(10)
